@@ -36,6 +36,7 @@ package core
 //@   invariant @distinct forall i, j :: 0 <= i && i < j && j < len(self.waiters) ==> self.waiters[i].ready != self.waiters[j].ready
 
 //@ func core.ResourceSemaphore.runJobs property C12
+//@   modifies held(self.mu), guarded(self.mu)
 //@   opt lockdiscipline on
 //@   requires held(self.mu)
 //@   requires inv(self, bounds, queue, distinct)
@@ -51,41 +52,51 @@ package core
 //@   loop 1 invariant forall j :: iter <= j && j < len(old(self.waiters)) ==> !closed(old(self.waiters)[j].ready)
 
 //@ func core.ResourceSemaphore.Acquire property C12
+//@   modifies held(self.mu), guarded(self.mu)
 //@   requires n >= 0
 //@   requires !held(self.mu)
 //@   ensures !held(self.mu)
 
 //@ func core.ResourceSemaphore.Release property C12
+//@   modifies held(self.mu), guarded(self.mu)
 //@   requires n >= 0
 //@   requires !held(self.mu)
 //@   ensures !held(self.mu)
 
 //@ func core.ResourceSemaphore.UpdateActual property C12
+//@   modifies held(self.mu), guarded(self.mu)
 //@   requires !held(self.mu)
 //@   ensures !held(self.mu)
 
 //@ func core.ResourceSemaphore.UpdateSize property C12
+//@   modifies held(self.mu), guarded(self.mu)
 //@   requires n <= self.maxSize
 //@   requires !held(self.mu)
 //@   ensures !held(self.mu)
 
 //@ func core.ResourceSemaphore.UpdateFreeUsed property C12
+//@   modifies held(self.mu), guarded(self.mu)
 //@   requires !held(self.mu)
 //@   ensures !held(self.mu)
 
 //@ func core.ResourceSemaphore.InUse property C12
+//@   modifies held(self.mu), guarded(self.mu)
 //@   requires !held(self.mu)
 //@   ensures !held(self.mu)
 //@ func core.ResourceSemaphore.Reserved property C12
+//@   modifies held(self.mu), guarded(self.mu)
 //@   requires !held(self.mu)
 //@   ensures !held(self.mu)
 //@ func core.ResourceSemaphore.Available property C12
+//@   modifies held(self.mu), guarded(self.mu)
 //@   requires !held(self.mu)
 //@   ensures !held(self.mu)
 //@ func core.ResourceSemaphore.CurrentSize property C12
+//@   modifies held(self.mu), guarded(self.mu)
 //@   requires !held(self.mu)
 //@   ensures !held(self.mu)
 //@ func core.ResourceSemaphore.QueueLength property C12
+//@   modifies held(self.mu), guarded(self.mu)
 //@   requires !held(self.mu)
 //@   ensures !held(self.mu)
 
@@ -101,14 +112,17 @@ package core
 //@   loop 1 invariant inv(self)
 
 //@ func core.MaxJobsSemaphore.Release property C12
+//@   modifies held(self.lock), guarded(self.lock)
 //@   requires !held(self.lock)
 //@   ensures !held(self.lock)
 
 //@ func core.MaxJobsSemaphore.Clear property C12
+//@   modifies held(self.lock), guarded(self.lock)
 //@   requires !held(self.lock)
 //@   ensures !held(self.lock)
 
 //@ func core.MaxJobsSemaphore.Current property C12
+//@   modifies held(self.lock), guarded(self.lock)
 //@   requires !held(self.lock)
 //@   ensures !held(self.lock)
 
@@ -121,3 +135,12 @@ package core
 // ---------------------------------------------------------------- metadata state (C02, C06; used by C12 call sites)
 
 //@ func core.Metadata.getState property C02
+
+// Request clamping (integer part; float rounding is treated as real arithmetic).
+//@ func core.LocalJobManager.GetSystemReqs property C12
+//@   requires self.maxCores >= 0 && self.maxMemGB >= 0
+//@   requires !held(self.memMBSem.mu)
+//@   requires self.vmemMBSem != nil ==> !held(self.vmemMBSem.mu)
+//@   ensures @cores result.Threads <= self.maxCores
+//@   ensures @mem result.MemGB * 1024 <= self.maxMemGB * 1024
+//@   ensures @vmem self.maxVmemMB > 0 && self.maxVmemMB >= self.maxMemGB * 1024 ==> result.VMemGB * 1024 <= self.maxVmemMB
